@@ -33,7 +33,7 @@ def main():
             if not (rc == 0 and "DEMONSTRATED:" in out) and res.get("applies"):
                 # some demonstrations expect a worktree that already has the patch: hand them the patched scratch worktree
                 subprocess.call(["rm", "-rf", wt + "/_b"])
-                env = dict(os.environ, WT=wt)
+                env = dict(os.environ, WT=wt, SRC=wt, WORKTREE=wt, TREE=wt)
                 p = subprocess.run(["bash", os.path.join(d, "demo.sh"), wt], cwd=d, stdout=subprocess.PIPE, stderr=subprocess.STDOUT, timeout=900, env=env)
                 rc, out = p.returncode, p.stdout.decode("utf-8", "replace")
             res["demo_exit"] = rc
